@@ -6,7 +6,7 @@ CONSTANTS
   SameTs = FALSE
   MaxLates = {2}
   Delays = {0}
-  StartBacks = {2, 9}
+  StartBacks = {2}
   MarkerModes = {TRUE, FALSE}
   Windows = {3}
   Modes = {"all"}
